@@ -91,6 +91,17 @@ def check(case) -> Result:
         chain = expected_chain(mi)
         names = [specs[i]['name'] for i in chain]
         ctx = f'motor {mi}: model chain {chain} names {names}'
+        # the library's own links, walked with a step limit: links that no accepted declaration created (e.g. left
+        # behind by a rejected call) could close a cycle on which Powertrain() would never return
+        actual, cur = [mi], els[mi]
+        while getattr(cur, 'drives', None) is not None and len(actual) <= n + 1:
+            cur = cur.drives
+            actual.append(next((k for k, e in enumerate(els) if e is cur), None))
+        if len(actual) > n + 1:
+            res.bad('C20/links-without-accepted-declaration/cycle',
+                    f'{ctx}: following drives from the motor never ends ({actual[:8]}...) although every accepted '
+                    f'declaration was acyclic')
+            continue
         try:
             pt = Powertrain(motor=els[mi])
             err = None
